@@ -13,6 +13,12 @@ CLAIMS = {
  "C05": ("Position-map specification (new position -> old position, 0 = top) shared by all nine stack types; theorems: stk_meets_spec (model = specification for every type/op/state), yank_getElem?/shove_getElem? (position maps), yank_perm/shove_perm/target_perm (permutations, so SWAP/ROT too), dup/yankdup/pop/flush/depth statements, clampIdx_lt/clampIdx_cases. Correspondence: exhaustive grid 9 types x 9 ops x depths 0..6 x 14 indices plus generated states, all by NAME.",
          "The nine Rust copies are tied to the single generic model only by the correspondence (differential) check.",
          "Lean 4 proof (position maps, List.Perm) + exhaustive-grid model/implementation correspondence"),
+ "C02": ("The Rust run loop modelled verbatim (runLoop: step-limit check, abstract clock, step, growth check, counter) with theorems for every program, state, configuration and clock: run_eq_stepN (final state = copyToCode then k single steps, whatever the outcome), run_steps_le (k <= eval_push_limit+1), run_noErrors (NoErrors only with empty EXEC), runLoop_growth (GrowthCapExceeded exactly at a step that enlarged the state by more than growth_cap), step_empty / step_done_iff, runLoop_unfold_ok / runLoop_done (short programs return NoErrors with their own step count). Correspondence: runs vs. an independent hand accounting with repeated step() calls vs. the model.",
+         "TimeLimitExceeded depends on the wall clock: the theorems quantify over an abstract clock; the real clock is not exercised (partial, runtime behaviour). run_steps_le assumes no instruction rewrites the configuration (proved separately for the full set where claimed).",
+         "Lean 4 proof by induction over the loop + executed model/implementation correspondence"),
+ "C17": ("Refinement proof of the ring buffer (container + start/end/len cursors modulo capacity, panicking indexing) to a bounded sequence: invariant Inv preserved from new by push, push_force, pop (both kinds), flush; abs commutes with each (push ignored when full, forced push drops the oldest, queue pops oldest / stack pops newest), get per kind = position in the live items, iteration = live items oldest first, printing = live items newest first, size <= capacity; INPUT.NEXT/READ/GET and OUTPUT.WRITE theorems over the abstract queues. Correspondence: all words of length 7/9 over {push, push_force, pop, flush} for capacities 1..4 and both kinds, random long sequences, INPUT/OUTPUT instructions by NAME.",
+         "Capacity 0 is outside the property. Private cursor fields are not observable: the Layer-0 model is run in lockstep from new over whole sequences.",
+         "Lean 4 refinement proof (ring buffer -> bounded sequence) + exhaustive small-sequence correspondence"),
  "C16": ("Refinement proof: every public PushStack method (Layer 0: Vec, top at the end, size-(i+1) index arithmetic that can panic) never panics and commutes with abs=reverse to the plain-sequence operation (Layer 1), for all element types, stacks and arguments (24 theorems). Correspondence: random and exhaustive operation sequences on the real PushStack<Item>.",
          "swap(i,j) (raw Vec indices) is outside the property. Vec::remove/insert/split_off/index panics are modelled, not verified.",
          "Lean 4 refinement proof (Vec model -> plain sequence) + executed model/implementation correspondence"),
